@@ -108,6 +108,20 @@ def handle (stream : String) (args : List String) : String :=
     let offerRtcp := !offerMux && needsRtcpSocket (mo = "1") (lo = "1") .offer false
     let answerRtcp := !answerMux && needsRtcpSocket (ma = "1") (la = "1") .answer offerMux
     s!"mux={b01 offerMux}/{b01 answerMux} rtcp={b01 offerRtcp}/{b01 answerRtcp}"
+  | "muxsdp2", [mo, lo, ma, la] =>
+    -- two sections (audio + video), Rtp mode, independent policy / compatibility mode per end
+    let offerBundle := willBundle (lo = "1") .offer 2 false
+    let answerBundle := willBundle (la = "1") .answer 2 offerBundle
+    let offerMux := sectionHasMux (mo = "1") (lo = "1") .offer false
+    let answerMux := sectionHasMux (ma = "1") (la = "1") .answer offerMux
+    -- every section's transport (the primary one, or the section's own when not bundled) binds its RTCP
+    -- socket by the same rule; `a=rtcp` is written when the section has no rtcp-mux and the socket exists
+    let offerRtcp := !offerMux && needsRtcpSocket (mo = "1") (lo = "1") .offer false
+    let answerRtcp := !answerMux && needsRtcpSocket (ma = "1") (la = "1") .answer offerMux
+    let two (b : Bool) : String := s!"{b01 b}{b01 b}"
+    -- bundled sections advertise the primary socket's port (`advertisedSocket`)
+    let same (bundle : Bool) : Bool := advertisedSocket bundle 1 == advertisedSocket bundle 0
+    s!"grp={b01 offerBundle}/{b01 answerBundle} sameport={b01 (same offerBundle)}/{b01 (same answerBundle)} mux={two offerMux}/{two answerMux} rtcp={two offerRtcp}/{two answerRtcp}"
   | "dcpre", [ro, ra] =>
     match parseRole ro, parseRole ra with
     | some ro, some ra => s!"{dcAlloc ro []} {dcAlloc ra []}"
